@@ -151,6 +151,30 @@ func sizePairs() []gen.Pair {
 		return b.String()
 	}
 	out = append(out, mk("size/oversized-both", "Big1", big("+="), big("-=")))
+	// a table-style switch: thousands of blocks AND one join whose Phi has thousands of edges
+	// (a single very long line in the SSA listing); the edit comes after the join
+	table := func(callee string) string {
+		var b strings.Builder
+		b.WriteString("func Big2(a int, b int) (res int) {\n\tcode := 0\n\tswitch a*151 + b {\n")
+		for i := 0; i < 6000; i++ {
+			fmt.Fprintf(&b, "\tcase %d:\n\t\tcode = %d\n", i, 1000003+i*7)
+		}
+		fmt.Fprintf(&b, "\tdefault:\n\t\tcode = -1\n\t}\n\tres = %s(code, b)\n\treturn res\n}\n", callee)
+		return b.String()
+	}
+	out = append(out, mk("size/oversized-table-switch", "Big2", table("h1"), table("h2")))
+	// the edit is the very last / the very first statement of an oversized function
+	edge := func(name, first, last string) string {
+		var b strings.Builder
+		fmt.Fprintf(&b, "func %s(a int, b int) (res int) {\n\tres %s b\n", name, first)
+		for i := 0; i < 2600; i++ {
+			fmt.Fprintf(&b, "\tif a == %d {\n\t\tres += b + %d\n\t}\n", i%40, i%7)
+		}
+		fmt.Fprintf(&b, "\tres %s a\n\treturn res\n}\n", last)
+		return b.String()
+	}
+	out = append(out, mk("size/oversized-edit-last", "Big3", edge("Big3", "+=", "+="), edge("Big3", "+=", "-=")))
+	out = append(out, mk("size/oversized-edit-first", "Big4", edge("Big4", "+=", "+="), edge("Big4", "-=", "+=")))
 	long := func(last string) string {
 		var b strings.Builder
 		b.WriteString("func Long1(a int, b int) (res int) {\n\tx := a + 1\n")
